@@ -627,7 +627,8 @@ class LockCheck:
         path = os.path.join(chk.work, "explore_%s.json" % tag)
         with open(path, "w") as f:
             json.dump(spec, f)
-        return run_sched(bindir, "random" if "runs" in spec else "explore", path, timeout=3000)
+        mode = spec.get("mode") or ("random" if "runs" in spec else "explore")
+        return run_sched(bindir, mode, path, timeout=3000)
 
     def run(self, tier, tours, configs, configs_if_differs, specs, tour_budget=None, stress=None, rare_tours=()):
         chk = core.Check(self.pid, tier, "model_checking")
@@ -763,7 +764,9 @@ class LockCheck:
             spec.setdefault("max_secs", 7 if tier == "quick" else 45)
             runs, info = self.explore(chk, bindir, spec, tag)
             explored.append({"tag": tag, "progs": spec["progs"], "preemption_bound": spec.get("preempt"), "runs": len(runs),
-                             "complete_within_bound": info.get("complete"),
+                             "mode": spec.get("mode") or ("random" if "runs" in spec else "dfs"),
+                             "complete_within_bound": info.get("complete"), "complete_up_to_preemptions": info.get("complete_up_to"),
+                             "state_choice_pairs_covered": info.get("pairs"),
                              "budgets": {k: spec.get(k, 0) for k in ("spur", "eintr", "weak")}})
             if gname and gname in graphs:
                 # impl -> model: the explored executions of the real code must be paths of TLC's graph
@@ -773,7 +776,7 @@ class LockCheck:
                 core.log("explore %s: %d of %d executions are paths of the model graph %s" % (tag, inside, len(runs), gname))
                 if bad:
                     drift.append({"config": gname, "source": tag, **bad})
-            core.log("explore %s: %d runs, complete=%s" % (tag, len(runs), info.get("complete")))
+            core.log("explore %s: %d runs, complete=%s (all schedules with <= %s preemptions)" % (tag, len(runs), info.get("complete"), info.get("complete_up_to")))
             judge_and_report(runs, tag, "exploration %s" % tag)
             if runs:
                 chk.sample({"source": tag, "progs": spec["progs"], "sched": runs[-1]["end"]["sched"]})
